@@ -11,9 +11,27 @@ const UNRESOLVABLE = {
   conditionalInline: { pre: '', type: "('x' extends string ? { a: string } : { b: number })" },
   mapped: { pre: '', type: "{ [K in 'a' | 'b']: string }" },
   keyword: { pre: '', type: 'string' },
+  readonlyUtil: { pre: '', type: 'Readonly<{ a: string }>' },
+  recordUtil: { pre: '', type: "Record<'a' | 'b', string>" },
+  unknownGlobal: { pre: '', type: 'SomeGlobalProps' },
+  // a computed key names the prop by the *value* of the identifier (a string constant, or a symbol that no prop can have)
+  computedConst: { pre: "const kk = 'cs';", type: '{ [kk]: string; a?: number }', resolvable: true, map: [{ name: 'cs', optional: false }, { name: 'a', optional: true }] },
+  computedConstIface: { pre: "const kk = 'cs';\ninterface CK { [kk]?: string; a: number }", type: 'CK', resolvable: true, map: [{ name: 'cs', optional: true }, { name: 'a', optional: false }] },
+  computedSymbol: { pre: 'const sym = Symbol();', type: '{ [sym]: string; a: number }', resolvable: true, map: [{ name: 'a', optional: false }] },
   generic: { pre: 'interface Gn<T> { a: T }', type: 'Gn<string>', resolvable: true, map: [{ name: 'a', optional: false }] },
 };
 
+// how the props parameter is written (the annotation may sit on an identifier, a destructuring pattern, or either with a default)
+const PARAMS = {
+  ident: (T) => `(props: ${T}) => () => null`,
+  objPat: (T) => `({ zz1, ...rest }: ${T}) => () => null`,
+  objPatEmpty: (T) => `({}: ${T}) => () => null`,
+  arrPat: (T) => `([first]: ${T}) => () => null`,
+  fnExprIdent: (T) => `function (props: ${T}) { return () => null; }`,
+  fnExprObjPat: (T) => `function setup({ zz1 }: ${T}, ctx: any) { return () => null; }`,
+  asyncArrow: (T) => `async (props: ${T}) => () => null`,
+  withCtx: (T) => `(props: ${T}, { emit }: SetupContext<(e: 'x') => void>) => () => null`,
+};
 function render(c) {
   if (c.sp === 'U') {
     const u = UNRESOLVABLE[c.u];
@@ -21,7 +39,7 @@ function render(c) {
   }
   const map = c.map.map((i) => R.ENTRY_MENU[i]);
   const enc = R.encode(map, c.path);
-  const call = `defineComponent((props: ${enc.type}) => () => null)`;
+  const call = `defineComponent(${PARAMS[c.param || 'ident'](enc.type)})`;
   if (c.scope === 'shadowChain') {
     // a function-local alias shadows an outer type of the same name and reaches that outer type through an outer chain
     const third = Math.ceil(map.length / 3);
@@ -98,10 +116,11 @@ function spaces(tier) {
   return [
     {
       name: 'P:maps×encodings',
-      bounds: { entry_menu: R.ENTRY_MENU.map(R.memberSrc), max_entries: thorough ? 4 : 3, operators: R.ENC_KEYS, operator_depth: thorough ? 3 : 2, positions: ['before', 'after'], scopes: ['module', 'shadow (function declaration)', 'shadow in arrow', 'shadow in function expression', 'shadowing chain through outer types', 'two components using the same declarations'] },
+      bounds: { entry_menu: R.ENTRY_MENU.map(R.memberSrc), max_entries: thorough ? 4 : 3, operators: R.ENC_KEYS, operator_depth: thorough ? 3 : 2, positions: ['before', 'after'], scopes: ['module', 'shadow (function declaration)', 'shadow in arrow', 'shadow in function expression', 'shadowing chain through outer types', 'two components using the same declarations'], parameter_forms: Object.keys(PARAMS) },
       *gen() {
         for (const map of allMaps) for (const path of paths(1)) for (const pos of ['before', 'after']) for (const scope of ['module', 'shadow', 'shadowArrow', 'shadowFnExpr']) yield { sp: 'P', map, path, pos, scope };
         for (const map of allMaps) yield { sp: 'P', map, path: [], pos: 'before', scope: 'shadowChain' };
+        for (const param of Object.keys(PARAMS)) if (param !== 'ident') for (const map of allMaps) for (const path of [[], ['iface'], ['alias']]) yield { sp: 'P', map, path, pos: 'before', scope: 'module', param };
         for (const map of allMaps) for (const path of paths(1)) yield { sp: 'P', map, path, pos: 'before', scope: 'twice' };
         for (const map of (thorough ? allMaps : allMaps.filter((m) => m.length <= 2).concat(coreMaps.filter((m) => m.length === 3)))) for (const path of paths(thorough ? 3 : 2)) if (path.length >= 2) for (const pos of (thorough ? ['before', 'after'] : ['before'])) {
           if (thorough && path.length === 3 && map.length !== 2) continue;
@@ -117,6 +136,7 @@ function* shrink(c) {
   if (c.sp !== 'P') return;
   for (let i = 0; i < c.path.length; i++) yield Object.assign({}, c, { path: c.path.slice(0, i).concat(c.path.slice(i + 1)) });
   for (let i = 0; i < c.map.length; i++) yield Object.assign({}, c, { map: c.map.slice(0, i).concat(c.map.slice(i + 1)) });
+  if (c.param && c.param !== 'ident') yield Object.assign({}, c, { param: 'ident' });
   if (c.scope !== 'module') yield Object.assign({}, c, { scope: 'module' });
   if (c.pos !== 'before') yield Object.assign({}, c, { pos: 'before' });
   for (let i = 0; i < c.map.length; i++) if (c.map[i] !== 0) yield Object.assign({}, c, { map: c.map.slice(0, i).concat([0], c.map.slice(i + 1)).filter((v, j, a) => a.findIndex((w) => R.ENTRY_MENU[w].name === R.ENTRY_MENU[v].name) === j) });
@@ -128,6 +148,6 @@ module.exports = {
   rule: 'BFS over encodings of an abstract prop map: every map of ≤3 (thorough 4) entries from the entry menu (plain / quoted-hyphenated keys, methods, getters, optional flags) × every operator path up to the depth bound (inline, alias, alias chain, interface, merged interface, extends (single and multiple), intersection, parentheses, exported, Partial, Required, Pick (inline and aliased key union), Omit, indexed access) × declaration before/after the call × module scope / function-local declarations shadowing same-named outer ones; each state is transformed by the real visitor with resolveType on and executed; the props option received by the mock defineComponent must have exactly the map\'s keys (as spelled) with required = not optional, and no error diagnostic; unresolvable forms must produce an error. The abstract map is the reference model. Distinct = distinct (observed props, diagnostics) pairs.',
   assumptions: ['mock defineComponent records its arguments', 'TS eraser of the driver (generated programs of known shape)', 'SWC TypeScript parser'],
   spaces, requests, judge, shrink,
-  caseKey: (c) => (c.sp === 'U' ? 'U:' + c.u : `P:{${c.map.map((i) => R.memberSrc(R.ENTRY_MENU[i])).join('; ')}} via ${c.path.join('∘') || 'inline'} @${c.pos}${c.scope !== 'module' ? ' ' + c.scope : ''}`),
+  caseKey: (c) => (c.sp === 'U' ? 'U:' + c.u : `P:{${c.map.map((i) => R.memberSrc(R.ENTRY_MENU[i])).join('; ')}} via ${c.path.join('∘') || 'inline'} @${c.pos}${c.scope !== 'module' ? ' ' + c.scope : ''}${c.param && c.param !== 'ident' ? ' param:' + c.param : ''}`),
   depth: (c) => (c.sp === 'U' ? 1 : c.path.length + c.map.length),
 };
